@@ -19,6 +19,19 @@ Three relations, all on the same seeded cases (corpus first):
     current source = the model's tables (all 818 rows, every run).
  C. GLUE/SPEC tie: int(built) of the library = NumExpr.eval_floor of the
     serialised built object (so the expression text means what __int__ means).
+ D. CORRESPONDENCE  num.py int-operand fragment of the simplifier (x + n, n + x,
+    x - n, n - x, -x, x * n, n * x, x // n, x ** n, make_exp(n, x) for a Python
+    int n) = PyNumArithModel.arith false: the library's RESULT TREE (or exception
+    class) vs the extracted model's on the serialised built operand, node by node
+    (tools/numarith_diff.py); `unmodelled` answers (a step needs an operation
+    between two symbolic operands) are counted per operator and skipped.  The
+    generator includes negative exact divisors and gcd-sensitive shapes
+    ((a + b**e) * (c * b**f) // d, small int exponents, symbolic exponents of
+    value 0..3).  The share of cases on which `arith true` -- the restriction
+    theorem C18_arith_sound is about -- gives the same tree is reported.
+    PROPERTY on the same cases: every tree the library returned is evaluated by
+    the extracted Spec and compared with integer arithmetic; a wrong integer is
+    a failure unless it belongs to a listed known-finding class (below).
 
 Known-finding classes (only honoured when listed in known_findings.json under
 property C18, by their `c18_class`; decided in this order):
@@ -36,6 +49,13 @@ property C18, by their `c18_class`; decided in this order):
   exp-lt-2 -- operator %, and the BUILT operand contains an Exp whose exponent
               evaluates to less than 2 (extracted NumExpr.exps_gt1 = false: the
               input is outside the hypotheses of theorem C18_mod_sound).
+  symexp-gcd -- relation D only: a wrong integer where the model answers the same
+              tree and `arith true` refuses (gcd(l, Exp) met a SYMBOLIC exponent
+              whose value is too small for the returned power of the base to
+              divide -- the only restriction of theorem C18_arith_sound; sharpness
+              is C18_symbolic_exponent_refuted), or, outside the modelled fragment,
+              one that disappears under BB_PYCF=gcdexact (gcd() made exact at run
+              time); decided after ltint and ordering.
 Anything else is a VIOLATION with a shrunk concrete replay.
 """
 import os
@@ -49,6 +69,8 @@ PYH = f'{core.VERIF}/py/pyharness.py'
 PYROOT = os.environ.get('BB_PYROOT', '/repo')
 CORPUS = f'{core.VERIF}/corpus/C18'
 CORR = 'num.py __mod__ = PyNumModModel.mod_model'
+CORR_ARITH = ('num.py int-operand fragment of the simplifier (+ - * // ** neg make_exp with a Python int) '
+              '= PyNumArithModel.arith false, result trees node by node')
 
 TRUSTED_EXTRA = [
     'py/pyharness.py (builds operands with num.py\'s own operators, serialises fields; CPython 3.12)',
@@ -57,7 +79,11 @@ TRUSTED_EXTRA = [
 ]
 ASSUMPTIONS = [
     'relation A is a differential test against the extracted Coq semantics, not a proof: the simplifier '
-    '(+ - * // ** comparisons) has no Gallina model',
+    '(+ - * // ** comparisons) has no Gallina model beyond the int-operand fragment of relation D',
+    'relation D: PyNumArithModel.arith is tied to the code by the tree-by-tree correspondence run; the theorems '
+    '(C18_arith_sound ...) are about arith true, which differs from the transcription only where gcd(l, Exp) meets a '
+    'symbolic exponent (C18_arith_intexp_sound: no difference when every exponent is a Python int); float tests of make_exp (sqrt/log, bases >= 2^26) and of gcd (log of an exact power outside '
+    'a table measured on the reference platform) are Unmodelled',
     'the float tests of num.py:922/1346/1365 are modelled by exact integer tests below 2^40 / 2^53 and are '
     'Unmodelled above',
 ]
@@ -682,6 +708,17 @@ def run(rep, tier, seed):
         int_tie += 1
         if iev[('numevalf', b)] != val:
             diffs.append((c['id'], f'pyint|{b}', val, iev[('numevalf', b)]))
+    # D. the int-operand fragment of the simplifier: library result tree = model result tree, and the property
+    #    on every tree the library returned there
+    from tools import numarith_diff            # pylint: disable = import-outside-toplevel
+    nrep, ndiffs, nwrong = numarith_diff.run(seed, 600 if tier == 'quick' else 5000, pyroot=PYROOT, show=4)
+    for d in ndiffs:
+        diffs.append((d['id'], f"numarith:{d['op']}|{d['x']}|{d['n']}",
+                      f"{d['library']} (built {d['built']})", d['model']))
+    numarith_diff.attribute(nwrong, PYROOT)
+    nclasses = {}
+    for w in nwrong:
+        nclasses.setdefault(str(w['class']), []).append(w)
     # failures: known classes first
     cs_fail = [c for c in cs if vs[c['id']]['status'] == 'fail']
     cls = classify(cs_fail, vs)
@@ -693,6 +730,16 @@ def run(rep, tier, seed):
         by_class.setdefault(str(k), []).append(c)
         if k is None or k not in listed:
             fails.append((c, vs[c['id']], k))
+    nfails = []
+    for k, lst in nclasses.items():
+        if k in listed:
+            f = listed[k]
+            w = lst[0]
+            rep.known_finding(f"{f['id']} class {k} ({f['site']}): {len(lst)} wrong integers among the int-operand "
+                              f"cases of this run, e.g. {w['replay'].split('|', 1)[1]} -> library {w['library'][:120]}, "
+                              f"integers say {w['integers_say'][:60]}")
+        else:
+            nfails += lst
     for k, lst in by_class.items():
         if k in listed:
             f = listed[k]
@@ -715,13 +762,33 @@ def run(rep, tier, seed):
         'mod_correspondence': dict(corr, symbolic_operands=symbolic_mod, divergences=len(diffs),
                                    tables_rows_compared=th.count('='), relation=CORR),
         'int_tie_checked': int_tie,
+        'int_operand_fragment': dict({k: nrep[k] for k in ('relation', 'per_op', 'per_operator', 'total',
+                                                            'agree_raise_classes', 'differences',
+                                                            'library_wrong_integers', 'wall_s')},
+                                     wrong_integers_by_class={k: len(v) for k, v in nclasses.items()},
+                                     wrong_integer_samples=[{kk: w[kk] for kk in ('op', 'built', 'n', 'library',
+                                                                                  'integers_say', 'class', 'replay')}
+                                                            for v in nclasses.values() for w in v[:2]]),
         'failures_by_class': {k: len(v) for k, v in by_class.items()},
         'known_classes_listed': sorted(listed),
         'samples': [case_line(cs[len(cs) // 7]), case_line(cs[len(cs) // 2]), case_line(cs[-1])],
         'explanation': 'relation A is a differential test against the Coq-defined integer semantics (no model of '
-                       'the simplifier); relation B ties the proved Gallina model of the modular machinery to the code',
+                       'the simplifier between two symbolic operands); relation B ties the proved Gallina model of the '
+                       'modular machinery to the code; relation D ties the Gallina model of the int-operand fragment of '
+                       'the simplifier to the code, result tree by result tree (unmodelled = a step needs an operation '
+                       'between two symbolic operands; covered_by_theorem = arith true returns the same tree, so '
+                       'C18_arith_sound applies; guard_refused = gcd(l, Exp) met a symbolic exponent too small for '
+                       'the returned power to divide; library_wrong_integer = a tree returned by the library whose '
+                       'exact value differs from integer arithmetic on the operand)',
         'tie_wall_s': round(time.time() - t0, 1),
     })
+    for w in nfails[:6]:
+        rep.violation({'kind': 'property-failure', 'op': w['op'], 'a': w['built'], 'b': str(w['n']),
+                       'library': w['library'], 'expected': w['integers_say'],
+                       'why': 'relation D: the tree returned by the library does not have the integer value of the '
+                              'operation (exact value of the result: ' + w['exact_value_of_result'] + ')',
+                       'case': f"numarith:{w['op']}|{w['x']}|{w['n']}", 'unlisted_class': w['class'],
+                       'pyroot': PYROOT}, found=True)
     return diffs, fails
 
 
@@ -853,11 +920,16 @@ def search(rep, diffs, fails):
                 continue
         rep.violation({'kind': 'correspondence', 'case': line, 'impl': a, 'model': b,
                        'correspondence': CORR if line.startswith('pymod') else
+                       CORR_ARITH if line.startswith('numarith:') else
                        ('exp_mod_special_cases tables of num.py = PyNumModTables.special_tables'
                         if line == 'pytables' else 'num.py __int__ = NumExpr.eval_floor')}, found=False)
 
 
 def replay(r):
+    if r.get('case', '').startswith('numarith:'):
+        from tools import numarith_diff        # pylint: disable = import-outside-toplevel
+        op, x, n = r['case'][len('numarith:'):].split('|')
+        return {'case': r['case'], 'verdict_now': numarith_diff.replay_case(op, x, int(n), PYROOT)}
     f = r.get('case', '').split('|')
     if len(f) < 3:
         return r
